@@ -92,20 +92,55 @@ def do_run(ids, props=None):
         try:
             a = sh(['git', '-C', wt, 'apply', os.path.join(d, 'patch.diff')])
             assert a.returncode == 0, a.stderr
-            env = dict(os.environ, YLD_REPO_SRC=wt + '/src', VF_WORK='/tmp/vf-work-seed')
+            env = dict(os.environ, YLD_REPO_SRC=wt + '/src', VF_WORK='/tmp/vf-work-seed', VF_EVIDENCE_DIR='/tmp/vf-evidence-seed')
             for p in plist:
                 r = sh([os.path.join(VERIF, 'check'), p, '--tier', 'quick'], env=env, cwd=VERIF, timeout=3000)
                 lines = [l for l in r.stdout.split('\n') if l.startswith(('VIOLATION', 'UNDECIDED', 'KNOWN', p + ':', 'CHECKER'))]
+                lines.sort(key=lambda l: not l.startswith('VIOLATION'))
                 out['checks'][p] = dict(exit=r.returncode, lines=[l[:300] for l in lines[:8]])
-                print(sid, p, 'exit', r.returncode, '|', (lines[0][:160] if lines else ''))
+                print(sid, p, 'exit', r.returncode, '|', (lines[0][:160] if lines else ''), flush=True)
         finally:
             drop(wt)
-        # evidence files written during these runs describe the mutated tree: restore the committed ones
         json.dump(out, open(os.path.join(d, 'result.json'), 'w'), indent=1)
-    sh(['git', '-C', VERIF, 'checkout', '--', 'evidence'])
+    shutil.rmtree('/tmp/vf-evidence-seed', ignore_errors=True)   # evidence of the mutated trees is not kept
+
+
+def do_harmless(ids, props=None):
+    """behaviour-preserving rewrites: every check (or --props) must stay quiet (exit 0, or 2 = undecided, never a VIOLATION)"""
+    hd = os.path.join(VERIF, 'seeded_harmless')
+    allp = props or ['C%02d' % i for i in range(1, 21)]
+    for sid in ids or sorted(os.listdir(hd)):
+        d = os.path.join(hd, sid)
+        if not os.path.exists(os.path.join(d, 'patch.diff')):
+            continue
+        old = json.load(open(os.path.join(d, 'result.json'))) if os.path.exists(os.path.join(d, 'result.json')) else {}
+        wt = scratch('h-' + sid[:3])
+        out = dict(name=sid, behaviour_preserving=True, tests=old.get('tests', ''), checks={})
+        try:
+            a = sh(['git', '-C', wt, 'apply', os.path.join(d, 'patch.diff')])
+            assert a.returncode == 0, a.stderr
+            t = sh([PY, '-m', 'pytest', '-q', '-p', 'no:cacheprovider'], env=dict(os.environ, PYTHONPATH=wt + '/src'), cwd=wt, timeout=600)
+            out['tests'] = t.stdout.strip().split('\n')[-1]
+            env = dict(os.environ, YLD_REPO_SRC=wt + '/src', VF_WORK='/tmp/vf-work-seed', VF_EVIDENCE_DIR='/tmp/vf-evidence-seed')
+            for p in allp:
+                r = sh([os.path.join(VERIF, 'check'), p, '--tier', 'quick'], env=env, cwd=VERIF, timeout=3000)
+                lines = [l for l in r.stdout.split('\n') if l.startswith(('VIOLATION', 'UNDECIDED', 'CHECKER'))]
+                out['checks'][p] = dict(exit=r.returncode, lines=[l[:300] for l in lines[:4]])
+                if r.returncode != 0:
+                    print(sid, p, 'exit', r.returncode, '|', (lines[0][:200] if lines else ''), flush=True)
+            print(sid, 'done: non-zero exits', [p for p, v in out['checks'].items() if v['exit'] != 0], flush=True)
+        finally:
+            drop(wt)
+        json.dump(out, open(os.path.join(d, 'result.json'), 'w'), indent=1)
+    shutil.rmtree('/tmp/vf-evidence-seed', ignore_errors=True)
 
 
 if __name__ == '__main__':
+    if sys.argv[1] == 'harmless':
+        a = [x for x in sys.argv[2:] if not x.startswith('--')]
+        pr = [x.split('=')[1].split(',') for x in sys.argv[2:] if x.startswith('--props=')]
+        do_harmless(a, pr[0] if pr else None)
+        sys.exit(0)
     if sys.argv[1] == 'import':
         do_import(sys.argv[2:])
     else:
